@@ -100,10 +100,15 @@ def cmd_check(prop, tier, seed, only=None, jobs=None):
     sys.path.insert(0, ROOT)
     from contracts import registry
     entry = registry.PROPERTIES[prop]
-    contracts = [cls() for cls in entry["contracts"]]
+    contracts = []
     work = []
-    for c in contracts:
+    for item in entry["contracts"]:
+        cls, flt = item if isinstance(item, tuple) else (item, None)
+        c = cls()
+        contracts.append(c)
         for case in c.cases(tier):
+            if flt and not re.search(flt, case["name"]):
+                continue
             if only and not re.search(only, "%s/%s" % (c.name, case["name"])):
                 continue
             work.append((type(c).__module__, type(c).__name__, case, tier))
@@ -309,6 +314,26 @@ def cmd_replay(path):
     return 0
 
 
+def cmd_selfcheck():
+    """setup: nothing to build; verify that the prover and the native interpreter respond"""
+    import compileall
+    import z3
+    compileall.compile_dir(os.path.join(ROOT, "dverif"), quiet=1)
+    compileall.compile_dir(os.path.join(ROOT, "contracts"), quiet=1)
+    x = z3.Int("x")
+    s = z3.Solver()
+    s.add(x > 0, x < 0)
+    assert s.check() == z3.unsat
+    env = dict(os.environ, PYTHONPATH=ROOT + os.pathsep + REPO)
+    p = subprocess.run([VENV_PY, "-c", "import numpy, dimarray, dverif.natspec; print(numpy.__version__)"],
+                       capture_output=True, text=True, env=env, cwd=ROOT)
+    if p.returncode != 0:
+        print(p.stderr[-2000:])
+        return 3
+    print("dverif selfcheck ok: z3 %s, native numpy %s" % (z3.get_version_string(), p.stdout.strip().splitlines()[-1]))
+    return 0
+
+
 def main(argv=None):
     ap = argparse.ArgumentParser(prog="dverif")
     sub = ap.add_subparsers(dest="cmd", required=True)
@@ -319,7 +344,10 @@ def main(argv=None):
     c.add_argument("--jobs", type=int, default=None)
     r = sub.add_parser("replay")
     r.add_argument("path")
+    sub.add_parser("selfcheck")
     a = ap.parse_args(argv)
+    if a.cmd == "selfcheck":
+        return cmd_selfcheck()
     if a.cmd == "check":
         seed = int(os.environ.get("VERIF_SEED", "0") or 0)
         return cmd_check(a.property, a.tier, seed, a.only, a.jobs)
